@@ -411,6 +411,16 @@ def rigid(vk, cfg):
             d_old = np.array([sum((P0[p] - P0[q]) ** 2) for p, q in itertools.combinations(cc, 2)])
             vk.ensures_eq(nm + "/distances", tr(vk, d_new), d_old)
             frame(vk, nm, mesh, s0)
+        vk.note("observation (not an obligation: the property quantifies over GENERATED meshes, whose points are float64): mesh.rotate of a user-built mesh with INTEGER-dtype points writes the rotated coordinates into an integer copy (points.copy()) and so truncates them silently (area of the 2x2 integer quad after rotate(30): 1.0 instead of 4.0); translate raises a casting error for the same input")
+        if dim == 3:
+            # a negative axis counts from the end, as in the library's other axis arguments (expand(axis=-1))
+            for axis in (-1, -3):
+                try:
+                    neg = mesh.rotate(a, axis, center=center, mask=mask)
+                except Exception as e:  # noqa: BLE001
+                    vk.ensures_true(f"rotate/{variant}/axis={axis}/returns", False, f"{type(e).__name__}: {str(e)[:160]}", backend="exec")
+                    continue
+                vk.ensures_eq(f"rotate/{variant}/axis={axis}/points==rotation about axis {axis + 3}", neg.points, mesh.rotate(a, axis + 3, center=center, mask=mask).points)
         vk.canary("rotate-is-identity", new.points, P0)
         vk.canary("rotation-doubles-volume", tr(vk, vols(new)), 2 * vols(mesh))
     elif op == "mirror":
